@@ -913,36 +913,42 @@ func c19RunWrap(r *verifkit.Reporter, fx *c19Fixture, run int) {
 		return firewall.Packet{LocalAddr: fx.nodeAddr, RemoteAddr: peer.addr, LocalPort: 22, RemotePort: eph, Protocol: firewall.ProtoTCP}
 	}
 	keeper := firewall.Packet{LocalAddr: fx.nodeAddr, RemoteAddr: pb.addr, LocalPort: 34000, RemotePort: 53, Protocol: firewall.ProtoUDP}
-	// sleepers: created at version v, never touched until version v comes around again
+	// D keeps only udp/53: from reload 65,533 on D/D' alternate, so every tcp sleeper's original direction is
+	// withdrawn during the whole window in which version numbers come around again, the dns flows stay allowed,
+	// and the reload that wraps the counter changes nothing about the rules.
+	D := [2]*c19Cfg{mk("D (only udp/53 out left)", 10, dns), mk("D'", 11, dns)}
+	// sleepers: created at (observed) version v, never touched until the installed version equals v again after
+	// the counter wrapped, or until the end of the run. No assumption is made about how versions are numbered.
 	type sleeper struct {
-		p     firewall.Packet
-		peer  *c19Peer
-		in    bool
-		wake  int // effective reload count at which it is probed (creation count + 65536)
-		under [2]*c19Cfg
+		p       firewall.Packet
+		peer    *c19Peer
+		in      bool
+		version uint16
+		probed  bool
 	}
-	var sleepers []sleeper
-	addSleeper := func(p firewall.Packet, peer *c19Peer, in bool, under [2]*c19Cfg) {
+	var sleepers []*sleeper
+	addSleeper := func(p firewall.Packet, peer *c19Peer, in bool) {
 		h.send(p, in, peer, "create-sleeper")
-		sleepers = append(sleepers, sleeper{p, peer, in, h.reloads + 65536, under})
+		sleepers = append(sleepers, &sleeper{p: p, peer: peer, in: in, version: h.ifc.firewall.rulesVersion})
 	}
+	probe := func(s *sleeper, why string) {
+		s.probed = true
+		h.send(s.p, !s.in, s.peer, why)
+		h.send(s.p, !s.in, s.peer, why+"-again")
+		r.Count("sleepers_probed", 1)
+	}
+	const windowStart = 65533
 	total := 65536 + 8 + rng.IntN(8)
 	victimN := uint16(36000)
-	addSleeper(tcp(pa, 35000), pa, false, B) // version 0, probed under B
+	addSleeper(tcp(pa, 35000), pa, false) // created before any reload
 	h.send(keeper, false, pb, "create-keeper")
 	parity := 0
 	for h.reloads < total && !h.bad {
 		n := h.reloads + 1 // the count this reload will produce
 		parity ^= 1
-		// which family must be installed at count n? a sleeper waking at n decides, else mostly A
 		fam := A
-		for _, s := range sleepers {
-			if s.wake == n {
-				fam = s.under
-			}
-		}
-		if n >= 65534 && n <= 65536 {
-			fam = B // so that the wrapping reload itself (B' -> B) changes nothing about the rules
+		if n >= windowStart {
+			fam = D
 		}
 		excursion := fam == A && n%4099 == 7 && n < 65000
 		if excursion {
@@ -953,46 +959,57 @@ func c19RunWrap(r *verifkit.Reporter, fx *c19Fixture, run int) {
 			r.Inconclusive(fmt.Sprintf("C19 wrap run: reload %d was not effective", n))
 			return
 		}
-		switch {
-		case n == 1:
-			addSleeper(sshIn(pb, 35001), pb, true, C) // version 1, probed under C
-		case n == 3:
-			// version 3, probed under A; udp/53 to a g2 host is allowed by every rule set of this run
-			addSleeper(firewall.Packet{LocalAddr: fx.nodeAddr, RemoteAddr: pb.addr, LocalPort: 35003, RemotePort: 53, Protocol: firewall.ProtoUDP}, pb, false, A)
-		case n == 5:
-			addSleeper(tcp(pa, 35005), pa, false, B)
-		case n == 65533:
-			addSleeper(tcp(pa, 35533), pa, false, B) // created just before the wrap, probed right after it (version 2)
-			sleepers[len(sleepers)-1].wake = 65538
+		switch n {
+		case 1:
+			addSleeper(sshIn(pb, 35001), pb, true)
+		case 2:
+			addSleeper(tcp(pb, 35002), pb, false)
+		case 3:
+			// udp/53 to a g2 host is allowed by every rule set of this run: must still be honoured when its version comes around
+			addSleeper(firewall.Packet{LocalAddr: fx.nodeAddr, RemoteAddr: pb.addr, LocalPort: 35003, RemotePort: 53, Protocol: firewall.ProtoUDP}, pb, false)
+		case 5:
+			addSleeper(tcp(pa, 35005), pa, false)
+		case windowStart - 1:
+			addSleeper(tcp(pa, 35532), pa, false) // created just before the window, under A
 		}
-		for _, s := range sleepers {
-			if s.wake == n {
-				h.send(s.p, !s.in, s.peer, "probe-sleeper-reply")
-				h.send(s.p, !s.in, s.peer, "probe-sleeper-reply-again")
-				r.Count("sleepers_probed", 1)
+		if n >= windowStart && h.wraps > 0 {
+			v := h.ifc.firewall.rulesVersion
+			for _, s := range sleepers {
+				if !s.probed && s.version == v {
+					probe(s, "probe-sleeper-reply-at-its-version")
+				}
 			}
 		}
-		if excursion {
+		switch {
+		case excursion:
 			// a victim flow created under A earlier must be forgotten during the excursion and stay forgotten after it
-			v := tcp(pa, victimN)
-			vin := sshIn(pa, victimN)
-			h.send(v, true, pa, "victim-reply")
-			h.send(vin, false, pa, "victim-reply")
+			h.send(tcp(pa, victimN), true, pa, "victim-reply")
+			h.send(sshIn(pa, victimN), false, pa, "victim-reply")
 			h.send(keeper, true, pb, "keeper-reply")
-		} else if n%4099 == 6 && n < 65000 {
+		case n%4099 == 6 && n < 65000:
 			victimN++
 			h.send(tcp(pa, victimN), false, pa, "create-victim")
 			h.send(sshIn(pa, victimN), true, pa, "create-victim")
-		} else if n%4099 == 9 && n < 65000 {
+		case n%4099 == 9 && n < 65000:
 			h.send(tcp(pa, victimN), true, pa, "victim-reply-after-revert")
 			h.send(sshIn(pa, victimN), false, pa, "victim-reply-after-revert")
-		} else if n == 65535 || n == 65536 {
-			// last seen under B' at version 65535; the next reload (to B) only changes a timeout and wraps the version
+		case n >= windowStart:
+			// the keeper is seen under every rule set of the window, so each reload in it (including the one that
+			// wraps the counter) changes nothing about the rules since the keeper last passed
 			h.send(keeper, true, pb, "keeper-reply")
-			h.send(keeper, false, pb, "keeper")
-			h.send(keeper, true, pb, "keeper-reply")
-		} else if n%997 == 0 || n >= 65530 {
+			if n%2 == 0 {
+				h.send(keeper, false, pb, "keeper")
+			}
+		case n%997 == 0:
 			h.send(keeper, rng.IntN(2) == 0, pb, "keeper")
+		}
+	}
+	if h.wraps == 0 {
+		r.Inconclusive("C19 wrap run: the version counter was never observed to wrap")
+	}
+	for _, s := range sleepers {
+		if !s.probed && !h.bad {
+			probe(s, "probe-sleeper-reply-at-end")
 		}
 	}
 	r.Count("wrap_runs", 1)
@@ -1003,7 +1020,7 @@ func c19RunWrap(r *verifkit.Reporter, fx *c19Fixture, run int) {
 
 func TestVerifC19Wrap(t *testing.T) {
 	r := verifkit.NewReporter(t, "C19", "wrap",
-		"one run (thorough: 10) of 65,544+ consecutive effective reloads through the real reloadFirewall from rulesVersion 0, alternating rule-preserving variants of three rule sets, with sleeper flows created at versions 0,1,3,5,65533 and probed exactly when the uint16 version comes around again (under rules that withdraw / keep their original direction), a keeper flow touched every 997 reloads, and victim flows around rule-set excursions; distinct = model case classes")
+		"one run (thorough: 10) of 65,544+ consecutive effective reloads through the real reloadFirewall from rulesVersion 0, alternating rule-preserving variants of four rule sets, with sleeper flows created at the first few versions and just before the wrap and probed exactly when the installed version equals their creation version again (under rules that withdraw / keep their original direction), a keeper flow touched every 997 reloads and around the wrap, and victim flows around rule-set excursions; distinct = model case classes")
 	defer r.Done()
 	fx := c19NewFixture()
 	runs := verifkit.Scale(1, 10)
